@@ -13,13 +13,24 @@ def main():
     spec = os.path.join(VERIF, "spec")
     bad = 0
     for f in sorted(os.listdir(spec)):
-        if f.endswith(".tla") and (f.startswith("MC_") or f.startswith("Trace") or f.startswith("Gen_")):
+        if f.endswith(".tla") and (f.startswith("MC_") or f.startswith("Trace") or f.startswith("Gen_") or f == "PdesyHist.tla"):
             p = subprocess.run(["tla-sany", f], cwd=spec, stdout=subprocess.PIPE, stderr=subprocess.STDOUT, text=True)
             ok = p.returncode == 0 and "Semantic errors" not in p.stdout and "Parse Error" not in p.stdout
             print("sany %-24s %s" % (f, "ok" if ok else "FAILED"))
             if not ok:
                 print(p.stdout[-2000:])
                 bad += 1
+    # export the quick-tier families once (cached under .cache/families, keyed by the spec hash)
+    from concurrent.futures import ThreadPoolExecutor
+    from . import families
+    fams = [("deps", "Gen_Families"), ("deps2", "Gen_Families"), ("deps4", "Gen_Families"), ("alloc", "Gen_Families"),
+            ("abs", "Gen_Families"), ("pert", "Gen_Families"), ("place", "Gen_Families"), ("placeflat", "Gen_Families"),
+            ("conveyor", "Gen_Families"), ("pairs", "Gen_Families"), ("dag", "Gen_Families"), ("watch", "Gen_Families"),
+            ("sub", "Gen_Families"), ("sort", "Gen_Sort"), ("report", "Gen_Report"), ("histC08", "PdesyHist"),
+            ("histC18", "PdesyHist")]
+    with ThreadPoolExecutor(max_workers=6) as ex:
+        for (name, mod), n in zip(fams, ex.map(lambda fm: len(families.export_family(fm[0], 1, module=fm[1])), fams)):
+            print("family %-10s %6d cases" % (name, n))
     from . import selftest
     bad += selftest.main()
     return 1 if bad else 0
